@@ -111,7 +111,7 @@ pub fn info() -> PropInfo {
         id: "C14",
         run,
         replay,
-        rule: "cases = (target type, UTF-8 document, cut set); targets are the 20 family types (values compared with ==) and the 26 further targets of C07 (compared through their Debug rendering). Documents: valid ones (serialized generated values), token-level mutations of them and token soup (C07's generators), and valid documents after C15's information-preserving rewrites (text split by CDATA/comments/PIs, references, re-quoted attributes, unknown content). Chunkings: piece sizes 1, 2, 3, 7, whole, and random cut sets through the harness-owned BufRead. Oracle: from_str and from_reader either both fail or both succeed with equal values (error values are not compared). Non-trivial = the document contains mixed text/CDATA, a comment/PI/DOCTYPE, a reference or an element the type skips (i.e. the deserializer has to merge text, skip subtrees or unescape), or the result is Err after at least three tokens.",
+        rule: "cases = (target type, UTF-8 document, cut set); targets are the 20 family types (values compared with ==) and the 26 further targets of C07 (compared through their Debug rendering). Documents: valid ones (serialized generated values), token-level mutations of them and token soup (C07's generators), and valid documents after C15's information-preserving rewrites (text split by CDATA/comments/PIs, references, re-quoted attributes, unknown content). Chunkings: piece sizes 1, 2, 3, 7, whole, and random cut sets through the harness-owned BufRead. Oracle: from_str and from_reader either both fail or both succeed with equal values (error values are not compared). Non-trivial = the document contains mixed text/CDATA, a comment/PI/DOCTYPE, a reference or an element the type skips (i.e. the deserializer has to merge text, skip subtrees or unescape), or the result is Err after at least three tokens. Every third document also goes through Deserializer::from_str_with_resolver / Deserializer::with_resolver with the default resolver: same outcome as from_str / from_reader.",
         assumptions: &["the document does not declare a non-UTF-8 encoding and does not start with a UTF-16 byte-order mark or the UTF-16 `<?` signature (the documented auto-detection would treat it as UTF-16 when read from a reader)", "when the document starts with a byte-order mark the first piece has at least 4 bytes (the sniff looks only at the first piece, cf. C02)"],
         level: "exploration",
         variants: &["full", "min"],
@@ -130,9 +130,30 @@ pub fn check(c: &Case) -> Verdict {
     let a = c.ty.from_str(&c.input);
     let cuts = super::c02::normalise_cuts(c.input.as_bytes(), &c.cuts);
     let b = c.ty.from_reader(ChunkedBufRead::new(c.input.as_bytes(), cuts.clone()));
+    // the constructors that take an entity resolver, given the default resolver, are the same two
+    // entry points (every third document)
+    let via_resolver = c.input.len() % 3 == 0;
+    if via_resolver {
+        let a2 = c.ty.from_str_with_resolver(&c.input);
+        let b2 = c.ty.from_reader_with_resolver(ChunkedBufRead::new(c.input.as_bytes(), cuts.clone()));
+        let same = |x: &Result<crate::types::Val, quick_xml::DeError>, y: &Result<crate::types::Val, quick_xml::DeError>| match (x, y) {
+            (Ok(p), Ok(q)) => p == q,
+            (Err(_), Err(_)) => true,
+            _ => false,
+        };
+        if !same(&a, &a2) {
+            return Verdict::fail(format!("from_str gives {:?}, Deserializer::from_str_with_resolver(PredefinedEntityResolver) gives {:?} | input {:?}", a.as_ref().map_err(|e| e.to_string()), a2.as_ref().map_err(|e| e.to_string()), c.input));
+        }
+        if !same(&b, &b2) {
+            return Verdict::fail(format!("from_reader gives {:?}, Deserializer::with_resolver(PredefinedEntityResolver) gives {:?} (cuts {:?}) | input {:?}", b.as_ref().map_err(|e| e.to_string()), b2.as_ref().map_err(|e| e.to_string()), cuts, c.input));
+        }
+    }
     let ntoks = crate::refxml::lex(c.input.as_bytes()).len();
     let interesting = c.input.contains("<![CDATA[") || c.input.contains("<!--") || c.input.contains("<?") || c.input.contains("<!DOCTYPE") || c.input.contains('&');
     let mut v = Verdict::pass(false);
+    if via_resolver {
+        v.classes.push("also-through-the-constructors-with-an-entity-resolver");
+    }
     match (&a, &b) {
         (Ok(x), Ok(y)) => {
             if x != y {
